@@ -469,6 +469,8 @@ func init() {
 			r.Try(func() { ruleBuildOneCriticalSection(w, r, "R05.16") })
 			r.Rule("R05.17", 3, "two registrations never share one graph node: every insertion is guarded by the duplicate test, group members get a fresh position (append only), and the views stay in step")
 			r.Try(func() { reexport(w, r, "R05.17", func(sub *Report) { checkC17(w, sub) }, "R17.1", "R17.2", "R17.3") })
+			r.Rule("R05.18", 2, "the graph that is checked for cycles is the graph that was described: both adds replace the node's edge list on every accepting path (a replacement never inherits edges)")
+			r.Try(func() { ruleAddReplacesEdges(w, r, "R05.18") })
 			r.Rule("R05.11", 1, "the edge table and the nodes' own dependency lists describe the same edges")
 			r.Try(func() { ruleEdgesAgreeWithNodeLists(w, r, "R05.11") })
 		})
